@@ -376,6 +376,12 @@ func (e *Eval) applyContract(fr *Frame, k *Contract, pkg *ssa.Package, pnames []
 				c.Assert(implies(out.PanicCond, envp.evalBool(ex)))
 			}
 		}
+		for _, cl := range k.AssumedPanicEnsures {
+			if ex, err := cl.Parse(); err == nil {
+				c.Assume("UNVERIFIED postcondition (body not checked against it): " + k.Pkg + "." + k.Name + ": on panic " + cl.Text)
+				c.Assert(implies(out.PanicCond, envp.evalBool(ex)))
+			}
+		}
 	}
 	for _, cl := range k.Ensures {
 		ex, err := cl.Parse()
@@ -386,6 +392,15 @@ func (e *Eval) applyContract(fr *Frame, k *Contract, pkg *ssa.Package, pnames []
 		if mentionsLogical(k, cl.Text) || mentionsLocalCounters(cl.Text) {
 			continue // clauses over the callee's logical variables / own call counters are not used by callers
 		}
+		c.Assert(implies(normalCond, env2.evalBool(ex)))
+	}
+	for _, cl := range k.AssumedEnsures {
+		ex, err := cl.Parse()
+		if err != nil {
+			c.Unsupported("%v", err)
+			continue
+		}
+		c.Assume("UNVERIFIED postcondition (body not checked against it): " + k.Pkg + "." + k.Name + ": " + cl.Text)
 		c.Assert(implies(normalCond, env2.evalBool(ex)))
 	}
 	for _, cl := range k.BridgeEnsures {
